@@ -12,7 +12,7 @@ import numpy as np
 
 from .. import boson, circmon, emumon
 from ..emumon import insert_heralds
-from ..gen import Builder
+from ..gen import Builder, equivalent_variant
 from .c03 import random_state
 from .common import drain_into, merge_stats, setup
 
@@ -87,6 +87,8 @@ def make_circuit(lw, rng):
                    herald_neq_p=float(rng.choice([0.0, 0.5])))
     else:
         c = b.tree(int(rng.integers(2, 6)), 1, log, max_children=2, direct_heralds_p=0.3)
+    c, variant = equivalent_variant(c, rng)
+    log.append(["presented_as", variant])
     return c, log
 
 
